@@ -332,12 +332,13 @@ def replay_file(path, timeout=300):
 
 
 def write_replay(pid, scen, viol, tag=None):
-    os.makedirs(os.path.join(VERIF, "replays"), exist_ok=True)
+    rdir = os.environ.get("VERIF_REPLAY_DIR", os.path.join(VERIF, "replays"))
+    os.makedirs(rdir, exist_ok=True)
     body = {"property": pid, "scenario": scen.name, "params": scen.params, "inputs": viol["inputs"],
             "label": viol["label"], "detail": viol.get("detail"), "excluded": viol.get("excluded", [])}
     blob = json.dumps(body, sort_keys=True, indent=1)
     sha = hashlib.sha256(blob.encode()).hexdigest()[:12]
-    path = os.path.join(VERIF, "replays", "%s-%s.json" % (pid, tag or sha))
+    path = os.path.join(rdir, "%s-%s.json" % (pid, tag or sha))
     with open(path, "w") as fh:
         fh.write(blob + "\n")
     return path
@@ -528,8 +529,9 @@ def run_property(hm, tier, seed):
         "wall_s": round(time.time() - t0, 2),
         "violations": len(reproduced),
     }
-    os.makedirs(os.path.join(VERIF, "evidence"), exist_ok=True)
-    with open(os.path.join(VERIF, "evidence", pid + ".json"), "w") as fh:
+    edir = os.environ.get("VERIF_EVIDENCE_DIR", os.path.join(VERIF, "evidence"))
+    os.makedirs(edir, exist_ok=True)
+    with open(os.path.join(edir, pid + ".json"), "w") as fh:
         json.dump(ev, fh, indent=1, sort_keys=True, default=str)
         fh.write("\n")
     print("%s property=%s tier=%s paths=%d obligations=%d (unsat=%d sat=%d unknown=%d) wall=%.1fs" % (
